@@ -624,6 +624,13 @@ fn range<'s>(input: &mut &'s str) -> PResult<Vec<BoundSet>, SemverParseError<&'s
     // Blanks before an alternative mean nothing (` v1 - 2` is `v1 - 2`).
     let _ = space0(input)?;
     alt((
+        // range ::= ... | '': an empty alternative is `*` (`1.2.3 ||` is
+        // `1.2.3 || *`, `` is `*`), as in node-semver.
+        Parser::map(peek(alt((literal("||"), eof))), |_| {
+            BoundSet::at_least(Predicate::Including((0, 0, 0).into()))
+                .into_iter()
+                .collect()
+        }),
         // range ::= hyphen | ...: a hyphen range is a whole alternative, not
         // one comparator of a set (`1 - 2 foo` is `1 2`, as in node-semver).
         Parser::map(
